@@ -523,4 +523,84 @@ theorem SI.enter {s : State} (h : SI none s) :
     have hn' : s.log.length ≤ pre.length := hn
     omega
 
+/-! ### helpers for Props/C03Run.lean -/
+
+theorem countP_le_one_unique {α : Type} (l : List α) (q : α → Bool) (h : l.countP q ≤ 1) {a b : α}
+    (ha : a ∈ l) (hb : b ∈ l) (hqa : q a = true) (hqb : q b = true) : a = b := by
+  induction l with
+  | nil => cases ha
+  | cons x xs ih =>
+    simp only [List.countP_cons] at h
+    rcases List.mem_cons.mp ha with rfl | ha'
+    · rcases List.mem_cons.mp hb with rfl | hb'
+      · rfl
+      · have : 0 < xs.countP q := List.countP_pos_iff.mpr ⟨b, hb', hqb⟩
+        simp only [hqa, if_true] at h
+        omega
+    · rcases List.mem_cons.mp hb with rfl | hb'
+      · have : 0 < xs.countP q := List.countP_pos_iff.mpr ⟨a, ha', hqa⟩
+        simp only [hqb, if_true] at h
+        omega
+      · exact ih (by split at h <;> omega) ha' hb'
+
+theorem emit_blocked (o : Obs) (s : State) (h : s.blocked = true) : (emit o s).2 = s := by
+  simp [emit, modS, h]
+
+theorem emitEv_blocked (w t : String) (p : Option Nat) (x : String) (s : State) (h : s.blocked = true) :
+    (emitEv w t p x s).2 = s := by
+  simp [emitEv, modS, h]
+
+theorem blockedLeafS (l : List Obs) : LeafS (fun s => s.blocked = true ∧ s.log = l) where
+  emit := fun o _ _ s h => by
+    show (emit o s).2.blocked = true ∧ (emit o s).2.log = l
+    rw [emit_blocked o s h.1]; exact h
+  kKillN := fun p sg via _ s h => by
+    show (kKill p sg via s).2.blocked = true ∧ (kKill p sg via s).2.log = l
+    simp only [kKill, bind, pure]
+    rw [emit_blocked _ _ (by exact h.1)]
+    exact h
+  kKill9 := fun p s h => by
+    show (kKill p 9 "" s).2.blocked = true ∧ (kKill p 9 "" s).2.log = l
+    simp only [kKill, bind, pure]
+    rw [emit_blocked _ _ (by exact h.1)]
+    exact h
+  kWaitpid := fun pid s h => by
+    show (kWaitpid pid s).2.blocked = true ∧ (kWaitpid pid s).2.log = l
+    simp only [kWaitpid, bind, pure]
+    cases (runK (fun k => k.waitpid pid) s).1 with
+    | echild => exact h
+    | none => exact h
+    | got q st =>
+      simp only
+      rw [emit_blocked _ _ (by exact h.1)]
+      exact h
+  kStateOf := fun pid s h => h
+  kChildren := fun pid r s h => h
+  kSleep := fun ms s h => h
+  emitEv := fun w t p x s h => by
+    show (emitEv w t p x s).2.blocked = true ∧ (emitEv w t p x s).2.log = l
+    rw [emitEv_blocked w t p x s h.1]; exact h
+  popPid := fun u p s h => h
+  bumpHook := fun u hn i s h => h
+  setRc := fun p rc s h => h
+  markBlocked := fun s h => ⟨rfl, h.2⟩
+
+theorem assignUids_stopSignal (cfg : List Watcher) (n : Nat) (w : Watcher) (hw : w ∈ assignUids cfg n) :
+    ∃ w0 ∈ cfg, w0.stopSignal = w.stopSignal := by
+  induction cfg generalizing n with
+  | nil => cases hw
+  | cons x xs ih =>
+    simp only [assignUids, List.mem_cons] at hw
+    rcases hw with rfl | hw
+    · exact ⟨x, List.mem_cons_self, rfl⟩
+    · obtain ⟨w0, hw0, h⟩ := ih (n + 1) hw
+      exact ⟨w0, List.mem_cons_of_mem _ hw0, h⟩
+
+theorem run_si_j {J : JMode} (s : State) (ops : List Op) (hsafe : ∀ op ∈ ops, OpSafe op) (h : SI J s) : SI J (run s ops) := by
+  induction ops generalizing s with
+  | nil => exact h
+  | cons o os ih =>
+    exact ih _ (fun op hop => hsafe op (List.mem_cons_of_mem _ hop)) (stepM_si_j o (hsafe o List.mem_cons_self) s h)
+
+
 end Circus.Core
